@@ -42,13 +42,199 @@ structure ConfInv (spec : SNode) (s : St VNode) (acts : List (Act VNode)) : Prop
   inflOk : ∀ p ∈ s.inflight, conf spec p.2.v = true
   startsOk : ∀ sd id v, Act.start sd id v ∈ acts → conf spec v = true
 
+/-! ### the operators only produce conforming values -/
+
+theorem offspring_conf {spec : SNode} (hs : wf spec = true) {core : Algo.St VNode} {v : VNode}
+    (hinit : conf spec core.init = true) (hpop : ∀ e ∈ core.pop, conf spec e.v = true)
+    (h : OffspringOk spec core v) : conf spec v = true := by
+  obtain ⟨cp, sp, mp, c, hc, hm, hk⟩ := h
+  refine mutAcc_conf mp spec c v hs ?_ hk hm
+  split at hc
+  · rw [hc]; exact hinit
+  · rename_i hne
+    refine crossAcc_conf cp sp spec _ c hs ?_ ?_ hc
+    · intro h
+      apply hne
+      simpa using h
+    · intro p hp
+      simp only [List.mem_map] at hp
+      obtain ⟨e, he, rfl⟩ := hp
+      exact hpop e he
+
+/-! ### the algorithm core -/
+
+theorem next_conf {spec : SNode} {a : Algo.St VNode} {ch : Algo.Choice VNode}
+    (hinit : conf spec a.init = true) (hpop : ∀ e ∈ a.pop, conf spec e.v = true)
+    (hch : a.initUsed = true → conf spec ch.v = true) :
+    conf spec (Algo.next a ch).1.init = true ∧ (∀ e ∈ (Algo.next a ch).1.pop, conf spec e.v = true) ∧
+    conf spec (Algo.next a ch).2.v = true := by
+  obtain ⟨_, _, _, e4, e5, _, e7⟩ := Algo.next_spec a ch
+  refine ⟨by rw [e4]; exact hinit, fun e he => hpop e (e5.subset he), ?_⟩
+  rcases e7 with ⟨_, _, _, _, _, hv⟩ | ⟨_, _, _, e, he, _, _, hv, _⟩
+  · rw [hv]
+    split
+    · rename_i hu; exact hch hu
+    · exact hinit
+  · rw [hv]; exact hpop e he
+
+theorem proc_conf {spec : SNode} {a : Algo.St VNode} {ind : Algo.Ind VNode} (r : Option (Int × Int))
+    (hinit : conf spec a.init = true) (hpop : ∀ e ∈ a.pop, conf spec e.v = true)
+    (hind : conf spec ind.v = true) :
+    conf spec (Algo.proc a ind r).init = true ∧ (∀ e ∈ (Algo.proc a ind r).pop, conf spec e.v = true) := by
+  cases r with
+  | none => exact ⟨hinit, hpop⟩
+  | some xm =>
+    obtain ⟨x, m⟩ := xm
+    rw [Algo.proc_some]
+    refine ⟨hinit, fun e he => ?_⟩
+    rcases Algo.mem_ins (List.mem_of_mem_take he) with rfl | he
+    · exact hind
+    · exact hpop e he
+
+/-! ### the controller -/
+
+theorem finish_conf {spec : SNode} {s : St VNode} {acts : List (Act VNode)} (h : ConfInv spec s acts) :
+    ConfInv spec (finish s acts).1 (finish s acts).2 := by
+  refine ⟨h.initOk, h.popOk, h.inflOk, fun sd id v hv => ?_⟩
+  simp only [finish, List.mem_append, List.mem_singleton, reduceCtorEq, or_false] at hv
+  exact h.startsOk sd id v hv
+
+theorem again_conf {spec : SNode} {s : St VNode} {acts : List (Act VNode)} (h : ConfInv spec s acts) :
+    ConfInv spec (again s acts).1 (again s acts).2 := by
+  simp only [again]
+  split
+  · exact finish_conf h
+  · exact h
+
+theorem startOne_conf {spec : SNode} {s : St VNode} {acts : List (Act VNode)} (ch : Algo.Choice VNode)
+    (h : ConfInv spec s acts) (hch : s.core.initUsed = true → conf spec ch.v = true) :
+    ConfInv spec (startOne s ch).1 (acts ++ [(startOne s ch).2]) := by
+  obtain ⟨_, _, _, _, _, _, _, _, ind, e9, e10, e11, e12⟩ := startOne_state s ch
+  obtain ⟨n1, n2, n3⟩ := next_conf h.initOk h.popOk hch
+  rw [← e12] at n3
+  refine ⟨by rw [e11]; exact n1, by rw [e11]; exact n2, ?_, ?_⟩
+  · intro p hp
+    rw [e9] at hp
+    simp only [List.mem_append, List.mem_singleton] at hp
+    rcases hp with hp | rfl
+    · exact h.inflOk p hp
+    · exact n3
+  · intro sd id v hv
+    simp only [List.mem_append, List.mem_singleton] at hv
+    rcases hv with hv | hv
+    · exact h.startsOk sd id v hv
+    · rw [e10] at hv
+      injection hv with _ _ hv
+      rw [hv]; exact n3
+
+theorem afterResult_conf {spec : SNode} (hs : wf spec = true) {c : Cfg} {s : St VNode} {ch : Algo.Choice VNode}
+    {acts : List (Act VNode)} (h : ConfInv spec s acts) (hch : OffspringOk spec s.core ch.v) :
+    ConfInv spec (afterResult c s ch acts).1 (afterResult c s ch acts).2 := by
+  simp only [afterResult]
+  split
+  · exact finish_conf h
+  · split
+    · exact finish_conf h
+    · split
+      · exact startOne_conf ch h (fun _ => offspring_conf hs h.initOk h.popOk hch)
+      · exact again_conf h
+
+theorem onAbort_conf {spec : SNode} {s : St VNode} {acts : List (Act VNode)} (h : ConfInv spec s acts) :
+    ConfInv spec (onAbort s).1 (acts ++ (onAbort s).2) := by
+  simp only [onAbort]
+  split
+  · simpa using h
+  · refine ⟨h.initOk, h.popOk, h.inflOk, fun sd id v hv => ?_⟩
+    simp only [List.mem_append, List.mem_singleton, reduceCtorEq, or_false] at hv
+    exact h.startsOk sd id v hv
+
+theorem onFail_conf {spec : SNode} {s1 : St VNode} {acts : List (Act VNode)} (er : Nat)
+    (h : ConfInv spec s1 acts) : ConfInv spec (onFail s1 er).1 (acts ++ (onFail s1 er).2) := by
+  simp only [onFail]
+  split
+  · have := again_conf h
+    have e := again_append s1 acts []
+    simp only [List.append_nil] at e
+    rw [e] at this; exact this
+  · have := @again_conf spec { s1 with aborted := true, err := some er } (acts ++ [.broadcastAbort])
+      ⟨h.initOk, h.popOk, h.inflOk, fun sd id v hv => by
+        simp only [List.mem_append, List.mem_singleton, reduceCtorEq, or_false] at hv
+        exact h.startsOk sd id v hv⟩
+    rw [again_append] at this; exact this
+
+theorem onResult_conf {spec : SNode} (hs : wf spec = true) {c : Cfg} {s : St VNode} {acts : List (Act VNode)}
+    {seed : Nat} {ind : Algo.Ind VNode} (r : Option (Int × Int)) (ch : Algo.Choice VNode)
+    (hl : lookupSeed seed s.inflight = some ind) (h : ConfInv spec s acts)
+    (hch : OffspringOk spec (Algo.proc s.core ind r) ch.v) :
+    ConfInv spec (onResult c s seed ind r ch).1 (acts ++ (onResult c s seed ind r ch).2) := by
+  obtain ⟨_, f2, _⟩ := eraseSeed_facts hl
+  have hind : conf spec ind.v = true := h.inflOk _ (lookupSeed_some hl)
+  obtain ⟨p1, p2⟩ := proc_conf r h.initOk h.popOk hind
+  simp only [onResult]
+  have := @afterResult_conf spec hs c (resultState s seed ind r) ch (acts ++ [.item ind.id seed (r.map (·.1))])
+    ⟨p1, p2, fun p hp => h.inflOk p (f2 p hp), fun sd id v hv => by
+      simp only [List.mem_append, List.mem_singleton, reduceCtorEq, or_false] at hv
+      exact h.startsOk sd id v hv⟩ hch
+  rw [afterResult_append] at this; exact this
+
+theorem step_conf {spec : SNode} (hs : wf spec = true) {c : Cfg} {s : St VNode} {acts : List (Act VNode)}
+    (e : Ev VNode) (h : ConfInv spec s acts) (hl : LegalEv spec s e) :
+    ConfInv spec (step c s e).1 (acts ++ (step c s e).2) := by
+  cases e with
+  | abortReq =>
+    simp only [step]
+    split
+    · simpa using h
+    · exact onAbort_conf h
+  | complete seed r ch =>
+    simp only [step]
+    split
+    · simpa using h
+    · split
+      · simpa using h
+      · rename_i ind hi
+        have hl' := hl ind hi
+        cases r with
+        | acc x m => exact onResult_conf hs _ ch hi h hl'
+        | rej => exact onResult_conf hs _ ch hi h hl'
+        | fail er =>
+          obtain ⟨_, f2, _⟩ := eraseSeed_facts hi
+          apply onFail_conf
+          exact ⟨h.initOk, h.popOk, fun p hp => h.inflOk p (f2 p hp), h.startsOk⟩
+
+theorem startMany_conf {spec : SNode} (chs : Nat → Algo.Choice VNode) (hchs : ∀ i, conf spec (chs i).v = true) :
+    ∀ (n i : Nat) (s : St VNode) (acts : List (Act VNode)), ConfInv spec s acts →
+      ConfInv spec (startMany chs n i s acts).1 (startMany chs n i s acts).2
+  | 0, _, s, acts, h => by simpa [startMany] using h
+  | n+1, i, s, acts, h => by
+    simp only [startMany]
+    exact startMany_conf chs hchs n (i+1) _ _ (startOne_conf (chs i) h (fun _ => hchs i))
+
+theorem init_conf {spec : SNode} (hs : wf spec = true) (c : Cfg) (ss : Nat) (v0 d : VNode)
+    (hv0 : conf spec v0 = true) (chs : Nat → Algo.Choice VNode) (hchs : LegalInit spec v0 chs) :
+    ConfInv spec (init c ss (some v0) d chs).1 (init c ss (some v0) d chs).2 := by
+  simp only [init]
+  have h0 : ConfInv spec ({ core := Algo.new v0 ss } : St VNode) [] :=
+    ⟨hv0, by simp [Algo.new], by simp, by simp⟩
+  refine again_conf (startMany_conf chs (fun i => ?_) _ _ _ _ h0)
+  obtain ⟨mp, hm, hk⟩ := hchs i
+  exact mutAcc_conf mp spec v0 _ hs hv0 hk hm
+
+theorem runFrom_conf {spec : SNode} (hs : wf spec = true) {c : Cfg} :
+    ∀ (evs : List (Ev VNode)) (s : St VNode) (acts : List (Act VNode)), ConfInv spec s acts →
+      LegalFrom spec c s evs → ConfInv spec (runFrom c s acts evs).1 (runFrom c s acts evs).2
+  | [], _, _, h, _ => h
+  | e :: es, s, acts, h, hl => by
+    simp only [runFrom]
+    exact runFrom_conf hs es _ _ (step_conf hs e h hl.1) hl.2
+
 /-- every parameter set handed to the objective function conforms to the spec, in every generation, for every
     schedule -/
 theorem run_confInv (spec : SNode) (hs : wf spec = true) (c : Cfg) (ss : Nat) (v0 d : VNode)
     (hv0 : conf spec v0 = true) (chs : Nat → Algo.Choice VNode) (hchs : LegalInit spec v0 chs)
     (evs : List (Ev VNode))
     (hlegal : LegalFrom spec c (init c ss (some v0) d chs).1 evs) :
-    ConfInv spec (run c ss (some v0) d chs evs).1 (run c ss (some v0) d chs evs).2 := by
-  sorry
+    ConfInv spec (run c ss (some v0) d chs evs).1 (run c ss (some v0) d chs evs).2 :=
+  runFrom_conf hs evs _ _ (init_conf hs c ss v0 d hv0 chs hchs) hlegal
 
 end Cambrian.Ctl
